@@ -78,12 +78,13 @@ def is_nan(w, bits):
     return False
 
 
-# which integer leaves of each family type are floats (harness/src/codec.rs: CompB(u64, f32);
+# which integer leaves of each family type are floats (harness/src/codec.rs: CompB(u64, f32); CompD { .. speed: f32 at field 3 };
 # CompN { .. t: (u8, f64) at field 5 .. f: f32 at field 12 .. }; Transform, PointLight and
 # StandardMaterial: every 4-byte leaf outside a handle is an f32, except Relief.max_steps)
 FLOAT_RULE = {
     'bsh::codec::CompB': lambda p, w: p == (1,),
     'bsh::codec::CompN': lambda p, w: p == (5, 1) or p == (12,),
+    'bsh::codec::CompD': lambda p, w: p == (3,),
     'bevy_transform::components::transform::Transform': lambda p, w: w == 4,
     'bevy_pbr::light::point_light::PointLight': lambda p, w: w == 4,
     'bevy_pbr::pbr_material::StandardMaterial': lambda p, w: w == 4,
